@@ -1,0 +1,22 @@
+//go:build verif
+
+package tchannel
+
+import "sync/atomic"
+
+var verifHook atomic.Value // func(name string, id uint32)
+
+// verifPoint calls the hook installed by verification tooling (it may log the point or
+// park the calling goroutine until the tooling releases it).
+func verifPoint(name string, id uint32) {
+	if h := verifHook.Load(); h != nil {
+		if f := h.(func(string, uint32)); f != nil {
+			f(name, id)
+		}
+	}
+}
+
+// VerifSetHook installs (or, with nil, removes) the schedule-point hook.
+func VerifSetHook(f func(name string, id uint32)) {
+	verifHook.Store(f)
+}
